@@ -53,7 +53,7 @@ def run(ctx):
     for n, prof in plans:
         total_exh += _gen(ctx, out, "HeaderMapGen", {"N": n, "PROFILE": prof}, workers=4)
     # seeded random longer sequences over the whole alphabet
-    num, depth = ctx.pick((400, 10), (4000, 12))
+    num, depth = ctx.pick((300, 10), (4000, 12))
     if smoke:
         num, depth = 300, 10
     nsim = _gen(ctx, out, "HeaderMapGen", {"N": depth, "PROFILE": 2}, workers=1,
